@@ -128,6 +128,18 @@ def execQuerySt (nodes : List NType) (n : Nat) (s : St) (A : List Int) : St × N
           if idx.isEmpty then (s, rc) else operateOnMarker nodes s idx
         else defaultLoop nodes s (A'.map (fun f => -f))
 
+/-- `preprocess_config_creation(assumptions)` followed by the `execute_query(assumptions)` that
+`enumerate` / `uniform_random_sampling` run before they read the `temp` fields: every `temp` is reset to
+the cached count, the complementary leaves of the assumptions and the True nodes get 0, then the count
+under the assumptions recomputes what depends on them.  `none`: an assumption is out of range. -/
+def prepareConfigs (nodes : List NType) (n : Nat) (s : St) (A : List Int) : Option (St × Nat) :=
+  if A.any (fun f => f.natAbs > n) then none
+  else
+    let s := { s with ns := s.ns.map fun x => { x with temp := x.count } }
+    let s := A.foldl (fun s f => match leafIx nodes (-f) with | some i => setTemp s i 0 | none => s) s
+    let s := (List.range nodes.length).foldl (fun s i => if nodes.getD i .fls == .tru then setTemp s i 0 else s) s
+    some (execQuerySt nodes n s A)
+
 /-- nothing is marked and `md` is empty: the state every request must leave behind -/
 def Clean (s : St) : Prop := s.md = [] ∧ ∀ i, markerOf s i = false
 
